@@ -201,6 +201,7 @@ class Extraction:
     specs: dict = field(default_factory=dict)
     n_paths: int = 0
     module: typing.Any = None
+    laws_by_default: bool = False
 
 
 SEQ_LEN = 3
@@ -596,6 +597,15 @@ def extract(item: Item) -> Extraction:
     raw = inspect.unwrap(fn)
     ex.specs = decorator_specs(fn)
     ex.laws = referenced_laws(raw, item.module)
+    if not ex.laws:
+        # a body that does not mention the module's equation is still held against it (argument <-> symbol
+        # correspondence then comes from the decorators / parameter names only)
+        for n in ("law", "definition", "condition"):
+            v = item.module.__dict__.get(n)
+            if isinstance(v, Relational):
+                ex.laws = [(n, v)]
+                ex.laws_by_default = True
+                break
     try:
         ex.args = make_args(raw, ex.specs)
     except Unextractable as e:
